@@ -2,7 +2,10 @@
 # usage: scratch_setup.sh <dir>  -- private copy of /repo + harness (+ replays, known findings) for mutant trials
 S=${1:-/tmp/scr}
 mkdir -p $S
-rsync -a --delete --exclude target --exclude .git /repo/ $S/repo/
+# no -t: a file whose content is unchanged keeps its (newer) mtime, a changed one gets the current time; restoring old
+# mtimes would make cargo believe a crate built from a patched file is still fresh
+rsync -rlpgoD --checksum --delete --exclude target --exclude .git /repo/ $S/repo/
+find $S/repo/contracts $S/repo/packages -name '*.rs' -exec touch {} + 2>/dev/null
 rsync -a --delete --exclude target /verif/harness/ $S/harness/
 rsync -a --delete --exclude _found /verif/replays/ $S/replays/
 cp /verif/known_findings.json $S/
